@@ -252,6 +252,7 @@ fn mesh(spec: &MeshSpec, solid: bool, queries: &[Query], cap_rel: f64, ang: f64,
     iso.translation.vector *= unit;
     let mut pts = vec![];
     let mut expect_in_tol: Vec<Option<bool>> = vec![];
+    let mut accepted_single: Vec<bool> = vec![];
     for q in resolved {
         let (dstar, _, f0) = soup.closest(&q);
         let sp = match guarded(|| m.surf_closest_to(&q)) {
@@ -359,10 +360,16 @@ fn mesh(spec: &MeshSpec, solid: bool, queries: &[Query], cap_rel: f64, ang: f64,
         }
         pts.push(q);
         expect_in_tol.push(expected);
+        accepted_single.push(got.is_some());
     }
     // indices_in_tol = indices of accepted points
     let idxs = m.indices_in_tol(&pts, cap, ang, None);
     ensure!(idxs.windows(2).all(|w| w[0] < w[1]) && idxs.iter().all(|i| *i < pts.len()), "C02/mesh/indices_in_tol/indices", "indices not ascending / out of range: {:?}", idxs);
+    // the batch form is the single-point filter applied to each point: the same verdict for every point, including those on
+    // the surface itself whose offset has no direction
+    for (i, a) in accepted_single.iter().enumerate() {
+        ensure!(idxs.contains(&i) == *a, "C02/mesh/indices_in_tol/differs_from_project_with_tol", "point {i} {:?}: project_with_tol accepts = {a}, indices_in_tol lists it = {} (cap {cap:e}, angle {ang:e})", pts[i], idxs.contains(&i));
+    }
     for (i, e) in expect_in_tol.iter().enumerate() {
         if let Some(e) = e {
             ensure!(idxs.contains(&i) == *e, "C02/mesh/indices_in_tol/membership", "point {i} in result: {}, expected {e}", idxs.contains(&i));
